@@ -40,7 +40,7 @@ static std::string oracle(const Case& c) {
 static void run() {
     Args& a = W().args; { Case c; c.set("phase", "setup"); set_current(c); deps::inject(0); model::require_self_check(); }
     uint64_t done = 0;
-    for (int inv = 0; inv < 2; inv++) for (int b = 0; b < 152; b++) { if ((b + inv) % a.nworkers != a.worker) continue; Case c; c.set("kind", "bit"); c.set("bit", (uint64_t)b); c.set("invert", (uint64_t)inv); c.set("t", model::EPOCH + (uint64_t)b * 7777777ull); set_current(c); std::string m = oracle(c); done++; if (!m.empty()) { record_failure(c, m); return; } }
+    for (int inv = 0; inv < 2; inv++) for (int b = 0; b < 152; b++) { if ((b + inv) % a.nworkers != a.worker) continue; Case c; c.set("kind", "bit"); c.set("bit", (uint64_t)b); c.set("invert", (uint64_t)inv); c.set("t", model::EPOCH + (uint64_t)b * 7777777ull); set_current(c); std::string m = oracle(c); done++; if (!m.empty() && enum_fail(c, m)) return; }
     W().ev.enumerated["single-bit (and complemented) random-source outputs, 152 x 2"] += done;
     seqgen::Weights wt{{10, 3, 10, 5, 5, 5, 5, 4, 2, 4, 2, 6, 1, 1}};
     rc_run("c18-histories", a.n(40000, 400000), 100, [&]() {
